@@ -162,6 +162,8 @@ def extract_cfg(sp, coid, d):
                                 problems.append(f"block {bi}: probe reports predicate {args[2].value}, registered {pid}")
                         else:
                             kind = "C03.PTruth"
+                            if rec["method"] == "executed_compare_predicate" and args[3].value.name in ("IN", "NOT_IN"):
+                                info.setdefault("in_pids", []).append(pid)
                             want = 1 if rec["method"] == "executed_bool_predicate" else 2
                             pidarg = args[1] if rec["method"] == "executed_bool_predicate" else args[2]
                             if pidarg.value != pid:
@@ -225,12 +227,14 @@ def _work(job):
         return res
     ex = I.extract_blocks(sp, plain, code)
     key2co, off2blk = {}, {}
+    in_pids = set()
     for coid, d in ex.items():
         term, problems, info = extract_cfg(sp, coid, d)
         for p in problems:
             res["fails"].append(["structure:" + p.split(": ", 1)[1].split(" ")[0] + "-" + p.split(": ", 1)[1].split(" ")[1],
                                  f"code object {d['name']}: {p}", None])
         res["cases"].append([term, d["name"], info])
+        in_pids |= set(info.pop("in_pids", []))
         for k, v in info.items():
             res["stats"][k] = res["stats"].get(k, 0) + v
         # offsets of conditional jumps -> block index (same linear order in dis and in the block list)
@@ -274,6 +278,10 @@ def _work(job):
             extra = sorted(map(str, reported - taken))
             missing = sorted(map(str, taken - reported))
             kind = "reported-not-taken" if extra else "taken-not-reported"
+            if not extra and all(isinstance(p, int) and p in in_pids and p not in trace.executed_predicates
+                                 for p, _v in taken - reported):
+                # the tracer deliberately does not evaluate `x in <one-shot iterator>` (it would consume it)
+                kind = "taken-not-reported:membership-unobserved"
             res["fails"].append([f"branches:{kind}", f"reported-but-not-taken {extra}; taken-but-not-reported {missing}", k])
         entered = {key2co[key] for key in truth.get("starts", []) if key in key2co}
         rep_co = set(trace.executed_code_objects)
